@@ -198,6 +198,15 @@ def check(case, ctx):
             pa = np.asarray(pw(X, Y, scaler=_SFS(column_wise=True), estimator=Ridge(alpha=case["ridge_alpha"], fit_intercept=False), **extra, **sub_idx))
         ctx.close(name + ":global==rms(pointwise)(user scaler+estimator)", ga, float(np.sqrt(np.mean(pa ** 2))), 1e-10 * max(1.0, ga),
                   "global vs RMS of pointwise with a user scaler and estimator")
+    # --- defined for every pair of feature sets: a feature that is constant on the training samples (zero padding) ------------
+    Xz, Yz = np.hstack([X, np.zeros((n, 1))]), np.hstack([np.full((n, 1), 2.5), Y])
+    for name, gl, extra in (("GRE", GRE, {}), ("GRD", GRD, {}), ("LRE", LRE, {"n_local_points": nloc})):
+        sub_idx = {"train_idx": tr, "test_idx": te[:4]}
+        with ctx.lib(name + "(constant feature)"):
+            v1 = gl(Xz, Y, **extra, **sub_idx)
+            v2 = gl(X, Yz, **extra, **sub_idx)
+        ctx.true(name + ":defined-with-constant-feature", bool(np.isfinite(v1)) and bool(np.isfinite(v2)) and v1 >= 0 and v2 >= 0,
+                 "%s with a constant column appended to X / Y: %r / %r" % (name, v1, v2))
     # --- training-set bound ----------------------------------------------------------------------------------
     p = np.asarray(case["sub"])[: max(fx + 2, n // 2)]
     with ctx.lib("GRE-train"):
